@@ -399,6 +399,10 @@ func RuneWidth(r rune, flags *Flags) int {
 }
 
 func TrimSpace(s string) string {
+	if 0 < len(s) && (0x80 <= s[0] || 0x80 <= s[len(s)-1]) {
+		// An end that is part of a multi-byte character: one byte does not tell whether that character is a blank.
+		return strings.TrimSpace(s)
+	}
 	if 0 < len(s) && (unicode.IsSpace(rune(s[0])) || unicode.IsSpace(rune(s[len(s)-1]))) {
 		s = strings.TrimSpace(s)
 	}
